@@ -137,7 +137,7 @@ def elements_for_file(f, tier):
     for cfg in cf:
         out.append({"file": f, "cfg": cfg})
     vcfgs = cf[:1] if tier == "quick" else cf[:3]
-    for kind in transforms.KINDS:
+    for kind in transforms.FIX_KINDS:
         for k in range(K_VARIANTS):
             for cfg in vcfgs:
                 out.append({"file": f, "cfg": cfg, "variant": [[kind, k]]})
@@ -206,7 +206,7 @@ def universe(tier, seed, n_quick, n_thorough, variants=True, gen=True, corpus_fi
             for c in elements_for_file(f, tier):
                 add(c)
     else:
-        kk = set(kinds or transforms.KINDS)
+        kk = set(kinds or transforms.FIX_KINDS)
         tries = 0
         while len(cases) < n and tries < n * 20 and variants:
             tries += 1
